@@ -17,6 +17,12 @@ CLAIMED = {
         "note": "Only IRs that are clean before a step are judged after it. References into packages that were not loaded are outside the claim. After allowed_objects filtering the entry point is not required to resolve (the statement's 'exactly' forces its removal when not listed). Four genuine defects are listed in known_findings.json.",
         "design_ref": "DESIGN.md §5 C05",
     },
+    "C06": {
+        "technique": "deterministic simulation: invariant monitors on the output of every language's real pass chain (ContextForLanguage) for generated nested inputs under seeded map-order schedules; the statement's predicates evaluated on every type position; violations attributed to the pass that broke them by replaying the chain step by step; shrinking and replay",
+        "text": "Chain post-conditions are checked on sampled nested inputs in two generator modes (plain: flat unions, no allOf; nested: everything). Each violation is keyed by (mode, language, predicate, cause) where cause is broken-by:<pass>, created-violating-by:<pass> or never-established, so that a chain losing the pass that establishes a predicate shows up as a new key even though many gaps of the chains are already known.",
+        "note": "The 61 known findings are genuine normal-form gaps of the current chains (a later pass replaces a type and drops nullability, nested unions survive in generated structs, ...). A regression that coincides exactly with a listed (mode, language, predicate, cause) is masked. Hint payloads are not type positions.",
+        "design_ref": "DESIGN.md §5 C06",
+    },
     "C07": {
         "technique": "deterministic simulation: the language loop's order is pinned by the scheduler to shuffled permutations (alone vs together), input arrival order is permuted, unrelated/same-package inputs are added, and interference monitors hold the schemas shared by all language chains and compare them with a snapshot after every chain; replay",
         "text": "Sampling of pipelines under controlled language order and input order, with equality oracles (files per language, per package) and a shared-state interference monitor at the seam Pipeline.Run already has (probe compiler pass + progress reporter).",
